@@ -83,11 +83,11 @@ class PropertyRun:
         for c in self.contracts():
             ex = Exec(self.repo, self.reg, self.pid)
             for k in self.known:
-                if k.get("region") and k["obligation"].split("/")[0] == ex.short(c.qn):
+                if k.get("region") and k["obligation"].split("/")[0] == ex.short(c.qn) + ("#" + c.key.split("#")[1] if "#" in c.key else ""):
                     lab = k["obligation"].split(":", 1)[1]
-                    ex.regions.setdefault((ex.short(c.qn), lab), []).append(k["region"])
+                    ex.regions.setdefault((k["obligation"].split("/")[0], lab), []).append(k["region"])
             t0 = time.time()
-            info = dict(qn=c.qn, file=None, sha256=None, obligations=0, paths=0, status="ok", gen_s=0.0)
+            info = dict(qn=c.key, file=None, sha256=None, obligations=0, paths=0, status="ok", gen_s=0.0)
             try:
                 found = self.repo.find(c.qn)
                 if found is not None:
@@ -117,14 +117,16 @@ class PropertyRun:
                     o.contract = c
                 info["obligations"] = len(obls)
                 deps = {c.qn: info["sha256"]}
+                info["sha256"] = ex.sha.get(c.qn)
                 for q in sorted(ex.inlined):
                     f2 = self.repo.find(q)
                     if f2 is not None:
                         deps[q] = self.repo.seg_sha(f2[2], f2[1])
                 info["deps_sha"] = deps
                 self.obls.extend(obls)
-                self.canaries[c.qn] = can
-                self.execs[c.qn] = ex
+                self.canaries[c.key] = can
+                self.execs[c.key] = ex
+                self.execs.setdefault(c.qn, ex)
                 for a in ex.assumed_contracts:
                     self.assumptions.add("assumed contract (not verified against a body): " + a)
                 for a in sorted(ex.inlined):
@@ -189,7 +191,7 @@ class PropertyRun:
             # undecided by every back end: one retry with a larger budget (verdicts must not flip under load)
             pend = [o for o in os_ if o.result != "unsat"]
             for o in pend:
-                r = smt.solve(o.smt2, self.timeout * 3)
+                r = smt.solve(o.smt2, self.timeout * 2)
                 o.result, o.backend, o.time, o.raw = r["verdict"], r["backend"], o.time + r["time"], r["raw"]
                 o.tried = o.tried + r["tried"]
             sat = [o for o in os_ if o.result == "sat"]
@@ -199,7 +201,7 @@ class PropertyRun:
                 continue
             else:
                 o = [o for o in os_ if o.result != "unsat"][0]
-                changed = self.changed_since_baseline(base, o.contract.qn)
+                changed = self.changed_since_baseline(base, o.contract.key)
                 if base is not None and name in base.get("discharged", []) and changed:
                     # passed on the pinned tree, the code it depends on has changed, and it is no longer provable
                     self.handle_failed(name, o, "regressed", changed)
